@@ -33,6 +33,7 @@ type Case struct {
 	OtherKey []byte
 	Cookies  []Cookie
 	Except   []string
+	SetErr   int  `json:",omitempty"` // the handler that sets the cookies then fails with this status (the error reply carries the cookies too)
 	Mutate   bool // run the complete single-character substitution / truncation / extension set on every ciphertext
 }
 
@@ -62,6 +63,9 @@ func check(c Case) vk.Verdict {
 		for _, ck := range c.Cookies {
 			ctx.Cookie(&fiber.Cookie{Name: ck.Name, Value: string(ck.Value)})
 		}
+		if c.SetErr != 0 {
+			return fiber.NewError(c.SetErr, "denied")
+		}
 		return nil
 	})
 	app.Get("/get", func(ctx fiber.Ctx) error {
@@ -75,8 +79,8 @@ func check(c Case) vk.Verdict {
 	})
 	issue := func() (map[string]string, string) {
 		r := vk.Do(app, "GET", "/set")
-		if r.Response.StatusCode() != 200 {
-			return nil, fmt.Sprintf("/set answered %d", r.Response.StatusCode())
+		if want := max(c.SetErr, 200); r.Response.StatusCode() != want {
+			return nil, fmt.Sprintf("/set answered %d, want %d", r.Response.StatusCode(), want)
 		}
 		out := map[string]string{}
 		for _, ck := range c.Cookies {
@@ -221,6 +225,9 @@ func check(c Case) vk.Verdict {
 	if len(c.Cookies) > 1 {
 		v.Classes = append(v.Classes, "several-cookies")
 	}
+	if c.SetErr != 0 {
+		v.Classes = append(v.Classes, "set-handler-fails")
+	}
 	mutations.add(tagRejected + sameAccepted + b64Rejected)
 	return v
 }
@@ -261,6 +268,7 @@ func genCase(t *rapid.T) Case {
 		c.Cookies = append(c.Cookies, Cookie{Name: n, Value: genValue(t)})
 	}
 	c.Except = rapid.SliceOfNDistinct(rapid.SampledFrom(names), 0, 2, rapid.ID[string]).Draw(t, "except")
+	c.SetErr = rapid.SampledFrom([]int{0, 0, 0, 403, 500}).Draw(t, "seterr")
 	c.Mutate = true
 	for _, ck := range c.Cookies {
 		if len(ck.Value) > 300 {
